@@ -62,6 +62,10 @@ TRANSFORMS = [
     ("in_litter", ["--transform", "fcv-tr litter $IN"]),
     ("inout_litter", ["--transform", "fcv-tr litter $IN $OUT"]),
     ("inplace_nocopy_noop", ["--transform", "fcv-tr-inplace noop $IN", "--in-place", "--no-copy"]),
+    # programs that cannot be launched (not found / not executable): the run ends with an error - and nothing left behind
+    ("unlaunchable_missing", ["--transform", "fcv-no-such-program $IN"]),
+    ("unlaunchable_missing_out", ["--transform", "./no/such/dir/prog $IN $OUT"]),
+    ("unlaunchable_directory", ["--transform", "/ $IN", "--in-place"]),
 ]
 DRY_OPTS = [[], ["-n", "2"], ["--priority", "newest"], ["--name", "f*"], ["--keep-name", "f1"], ["--priority", "top", "--no-lock"]]
 
@@ -80,7 +84,7 @@ def cases(tier, seed):
                 for outmode in ("stdout", "file"):
                     for fmt in ("default", "json"):
                         i += 1
-                        if quick and (i % 4) and tname not in ("inplace_nocopy_noop", "in_litter", "inout_litter", "in_embedded_garbage", "inplace_embedded_garbage",
+                        if quick and (i % 4) and tname not in ("inplace_nocopy_noop", "in_litter", "inout_litter", "unlaunchable_missing", "unlaunchable_missing_out", "unlaunchable_directory", "in_embedded_garbage", "inplace_embedded_garbage",
                                                                 "inout_clobber", "in_clobber", "inplace_garbage"):
                             continue
                         out.append({"kind": "group", "tree": t, "transform": tname, "targs": targs, "cache": cache,
